@@ -138,22 +138,40 @@ theorem advanceDyn_never_runs_out_of_fuel (fuel : Nat) (d : DState) (r : Nat) (q
         simp only [Bool.not_false, Bool.true_and, beq_self_eq_true, List.any_eq_true]
         exact ⟨u, hu, by simp⟩
       obtain ⟨s2, q2, h2, hc2, hq2, hp2, hpar2, hrt2, _⟩ := dispatchDyn_ok u.2 hq1 hpc' hok
-      simp only [h2]
       split
-      · -- the dial is refused: the attempt ends, release, maybe again
-        obtain ⟨s3, h3, hc3, hd3⟩ := endAttempt_fail_ok (out := .dialRefused) hq2 hp2 rfl
-        simp only [h3]
-        obtain ⟨s4, h4, hr4⟩ := unload_ok (s := s3) (keysOf d q.cfg)
-          ⟨cs1, by rw [hc3, hc2]; exact hcs1, hnc1, how1⟩ (decidedFrom_idle hd3)
-        simp only [h4]
+      · -- the dial info cannot be filled in: the iteration returns at once and releases
+        have hb : step s1 (.dialInfoFails r) = some { s1 with reqs := s1.reqs.set r { q' with pc := .done } } := by
+          show stepDialInfoFails s1 r = some _
+          unfold stepDialInfoFails
+          rw [hq1]
+          simp only []
+          split
+          · rfl
+          · simp_all
+        simp only [hb]
+        obtain ⟨s4, h4, _⟩ := unload_ok (s := { s1 with reqs := s1.reqs.set r { q' with pc := .done } }) (r := r)
+          (keysOf d q.cfg) ⟨cs1, hcs1, hnc1, how1⟩
+          (by intro x hx
+              have : ({ s1 with reqs := s1.reqs.set r { q' with pc := Pc.done } } : State).reqs[r]? = some { q' with pc := Pc.done } :=
+                get_set_self hq1
+              rw [this] at hx; simp at hx; subst hx; rfl)
+        simp only [h4]; rfl
+      · simp only [h2]
         split
+        · -- the dial is refused  : the attempt ends, release, maybe again
+          obtain ⟨s3, h3, hc3, hd3⟩ := endAttempt_fail_ok (out := .dialRefused) hq2 hp2 rfl
+          simp only [h3]
+          obtain ⟨s4, h4, hr4⟩ := unload_ok (s := s3) (keysOf d q.cfg)
+            ⟨cs1, by rw [hc3, hc2]; exact hcs1, hnc1, how1⟩ (decidedFrom_idle hd3)
+          simp only [h4]
+          split
+          · rfl
+          next hnd =>
+            have hnd' : isDone s4 r = false := by simpa using hnd
+            obtain ⟨q1, hq1', hp1, hpar, _, hrt, hlt, _⟩ := isDone_false_start (decidedFrom_reqs hd3 hr4) hnd'
+            exact ih (withIter d s4 r d.s.cfgs.length (keysOf d q.cfg)) q1 hq1' hp1
+              (by rw [hpar, hpar2]; exact hdyn')
+              (by rw [hpar, hrt, hpar2, hrt2, hpar', hrt']; rw [hpar2, hrt2, hpar', hrt'] at hlt; omega)
         · rfl
-        next hnd =>
-          have hnd' : isDone s4 r = false := by simpa using hnd
-          obtain ⟨q1, hq1', hp1, hpar, _, hrt, hlt, _⟩ := isDone_false_start (decidedFrom_reqs hd3 hr4) hnd'
-          exact ih (withIter d s4 r d.s.cfgs.length (keysOf d q.cfg)) q1 hq1' hp1
-            (by rw [hpar, hpar2]; exact hdyn')
-            (by rw [hpar, hrt, hpar2, hrt2, hpar', hrt']; rw [hpar2, hrt2, hpar', hrt'] at hlt; omega)
-      · rfl
 
 end CaddyModel.C09
